@@ -205,12 +205,17 @@ Definition violates (c : case) : bool := negb (Pb (c_obs c)).
     events are equal with and without the requests. *)
 Record route_obs := mkRoute { r_hash_eq : bool; r_supply_eq : bool; r_events_eq : bool }.
 
-Inductive anycase := CEvm (c : case) | CRoute (o : route_obs).
+(** third driver: simulations (baseapp.Simulate) of arbitrary single- and multi-message Cosmos transactions, never committed,
+    between the blocks that deliver sub-sequences of the same messages.  A simulation runs on its own branch of the
+    check state (Proofs.generic_branch_isolation: whatever the steps of the other branches are, the deliver branch
+    evolves as alone), so the model predicts equality of every DeliverTx response and every app hash.  The three
+    booleans are then: all app hashes / all (code, gas, data) / all events of the delivered transactions. *)
+Inductive anycase := CEvm (c : case) | CRoute (o : route_obs) | CSim (o : route_obs).
 
 Definition route_clean (o : route_obs) : bool := r_hash_eq o && r_supply_eq o && r_events_eq o.
 
 Definition mismatch_any (m : mode) (c : anycase) : bool :=
-  match c with CEvm c => mismatch_in m c | CRoute o => negb (route_clean o) end.
+  match c with CEvm c => mismatch_in m c | CRoute o | CSim o => negb (route_clean o) end.
 
 Definition violates_any (c : anycase) : bool :=
-  match c with CEvm c => violates c | CRoute o => negb (route_clean o) end.
+  match c with CEvm c => violates c | CRoute o | CSim o => negb (route_clean o) end.
